@@ -177,6 +177,7 @@ static void run_convert(long &k) {
 	int ncases = ctx.quick() ? 8 : 32;
 	for (int c = 0; c < ncases; c++) {
 		long kk = k++;
+		if (c && thin_light(kk)) continue;
 		J d; d.kv("fam", "mpz-gcry-convert").kv("chunk", c);
 		if (!case_begin(kk, d.str())) continue;
 		Rng r = case_rng(kk, 1), lib = case_rng(kk, 2); tl_rng = &lib; CaseStat cs; Z v;
